@@ -253,6 +253,11 @@ def replay(rec, ctx):
     for i, n in rec["outsiders"]:
         if getattr(obs[i], "_verif_count", 0) != n:
             bad("observe-count-nonmember", f"observer {i}")
+    for i, va, vb in rec.get("outvals", []):
+        for attr, vv in ((A, va), (B, vb)):
+            want = defaults[i][attr] if vv == 0 else conc(attr, vv)
+            if not _eq(getattr(obs[i], attr), want):
+                bad("non-member-value-changed", f"observer {i} (not in the group) has {attr} = {getattr(obs[i], attr)!r}, spec value id {vv}")
     if len(members) >= 2:
         sl = group[0:2]
         if len(sl) != 2 or sl[0] is not members[0] or sl[1] is not members[1]:
@@ -371,6 +376,7 @@ INVARIANT MembersParented
 PROPERTY RejectedIsNoop
 PROPERTY AssignPost
 PROPERTY ObserveOnce
+PROPERTY OutsidersUntouched
 VIEW View
 ACTION_CONSTRAINT Emit
 """
@@ -389,8 +395,24 @@ def _job(args, ctx):
     return out
 
 
+SPEC_MUTANTS = [
+    ("scalar-assignment-reaches-non-members", "AssignScalar(a, v) == /\\ val' = [val EXCEPT ![a] = [o \\in Obs |-> IF o \\in Rng(members) THEN v ELSE @[o]]]",
+     "AssignScalar(a, v) == /\\ val' = [val EXCEPT ![a] = [o \\in Obs |-> v]]"),
+    ("scalar-assignment-leaks-into-other-attribute", "AssignScalar(a, v) == /\\ val' = [val EXCEPT ![a] = [o \\in Obs |-> IF o \\in Rng(members) THEN v ELSE @[o]]]",
+     "AssignScalar(a, v) == /\\ val' = [b \\in Attrs |-> [o \\in Obs |-> IF o \\in Rng(members) THEN v ELSE val[b][o]]]"),
+    ("wrong-length-partially-applied", "    /\\ Len(vs) # Len(members)\n    /\\ outcome' = \"ValueError\"\n    /\\ UNCHANGED <<members, val, name, parent, nobs>> /\\ Log([op |-> \"assign_seq\"",
+     "    /\\ Len(vs) # Len(members)\n    /\\ outcome' = \"ValueError\"\n    /\\ val' = [val EXCEPT ![a] = [o \\in Obs |-> 1]] /\\ UNCHANGED <<members, name, parent, nobs>> /\\ Log([op |-> \"assign_seq\""),
+    ("observers-assignment-does-not-parent", "/\\ parent' = [o \\in Obs |-> IF o \\in Rng(s) THEN \"group\" ELSE parent[o]]", "/\\ parent' = parent"),
+    ("observe-counts-everybody", "Observe == /\\ nobs' = [o \\in Obs |-> IF o \\in Rng(members) THEN nobs[o] + 1 ELSE nobs[o]]", "Observe == /\\ nobs' = [o \\in Obs |-> nobs[o] + 1]"),
+    ("elementwise-assignment-reversed", "THEN vs[CHOOSE i \\in 1..Len(members) : members[i] = o] ELSE @[o]]]", "THEN vs[Len(members) + 1 - CHOOSE i \\in 1..Len(members) : members[i] = o] ELSE @[o]]]"),
+]
+
+
 def run(v):
     depth = 2 if v.tier == "quick" else 3
+    if v.tier == "thorough":
+        from . import specmut
+        v.notes["spec_mutants"] = specmut.audit("ObserverGroup", CFG.format(maxhist=2).replace("ACTION_CONSTRAINT Emit\n", ""), SPEC_MUTANTS)
     res = core.run_tlc("ObserverGroup", CFG.format(maxhist=depth), workers=1, seed=v.seed, timeout=3000)
     core.tlc_must_pass(res, "ObserverGroup")
     v.add_tlc(res, "ObserverGroup")
